@@ -2,6 +2,7 @@ SPECIFICATION Spec
 CONSTANT Part = "scale"
 CONSTANT Deviation = "none"
 CONSTANT MaxDepth = 3
+CONSTANT Rebounds = FALSE
 CONSTANT Export = TRUE
 INVARIANT C05_Definition
 INVARIANT C05_Linear
